@@ -45,6 +45,10 @@ pub fn run(args: &[String]) -> i32 {
     for k in 0..arg_u64(args, "--shapes", 324) as usize {
         sources.push(("loop-shape".into(), loop_shapes(&mut rng, k)));
     }
+    // directly addressed declarations of mixed widths, overlapping, in any order of declaration
+    for k in 0..(arg_u64(args, "--shapes", 324) as usize * 2 / 3) {
+        sources.push(("io-shape".into(), io_shapes(&mut rng, k)));
+    }
     let mut o = Out::create(arg(args, "--out").expect("--out"));
     std::panic::set_hook(Box::new(|_| {}));
     for (i, (from, src)) in sources.iter().enumerate() {
@@ -64,6 +68,16 @@ pub fn run(args: &[String]) -> i32 {
             }
             let mut h = TestHarness::from_source(src).map_err(|e| ("harness".to_string(), e.to_string()))?;
             h.runtime_mut().apply_bytecode_bytes(&bytes, None).map_err(|e| ("apply".to_string(), e.to_string()))?;
+            // the process-image sizes the container carries are what a deployed runtime gives its images: every
+            // directly addressed declaration (`AT %IW0`) must lie inside them
+            let need = declared_image_ends(src);
+            let io = h.runtime().io();
+            let have = [io.inputs().len(), io.outputs().len(), io.memory().len()];
+            for a in 0..3 {
+                if have[a] < need[a] {
+                    return Err(("image".into(), format!("area {} of the applied container has {} byte(s), a declaration needs {}", ["%I", "%Q", "%M"][a], have[a], need[a])));
+                }
+            }
             Ok(())
         });
         let (res, detail) = match r {
@@ -76,4 +90,60 @@ pub fn run(args: &[String]) -> i32 {
     }
     o.flush();
     0
+}
+
+/// End (in bytes) of the farthest `AT %<area><size><byte>[.<bit>]` declaration per area [I, Q, M]; wildcard and
+/// malformed addresses are ignored.
+fn declared_image_ends(src: &str) -> [usize; 3] {
+    let mut need = [0usize; 3];
+    let b = src.as_bytes();
+    let mut i = 0;
+    while i + 4 < b.len() {
+        let at = (b[i] == b'A' || b[i] == b'a') && (b[i + 1] == b'T' || b[i + 1] == b't') && (i == 0 || !(b[i - 1].is_ascii_alphanumeric() || b[i - 1] == b'_'))
+            && b[i + 2].is_ascii_whitespace();
+        if !at {
+            i += 1;
+            continue;
+        }
+        let mut j = i + 2;
+        while j < b.len() && b[j].is_ascii_whitespace() {
+            j += 1;
+        }
+        i = j;
+        if j + 2 >= b.len() || b[j] != b'%' {
+            continue;
+        }
+        let area = match b[j + 1].to_ascii_uppercase() { b'I' => 0, b'Q' => 1, b'M' => 2, _ => continue };
+        let (span, mut p) = match b[j + 2].to_ascii_uppercase() { b'X' => (1usize, j + 3), b'B' => (1, j + 3), b'W' => (2, j + 3), b'D' => (4, j + 3), b'L' => (8, j + 3), c if c.is_ascii_digit() => (1, j + 2), _ => continue };
+        let s0 = p;
+        while p < b.len() && b[p].is_ascii_digit() {
+            p += 1;
+        }
+        if p == s0 {
+            continue;
+        }
+        if let Ok(byte) = src[s0..p].parse::<usize>() {
+            if byte < 1 << 20 {
+                need[area] = need[area].max(byte + span);
+            }
+        }
+    }
+    need
+}
+
+fn io_shapes(rng: &mut StdRng, k: usize) -> String {
+    let mut decls = String::new();
+    let mut body = String::new();
+    let n = rng.gen_range(2..7);
+    for i in 0..n {
+        let area = ["I", "Q", "M"][rng.gen_range(0..3)];
+        let byte = rng.gen_range(0..10);
+        let (sz, ty, lit) = [("X", "BOOL", "TRUE"), ("B", "BYTE", "BYTE#1"), ("W", "WORD", "WORD#2"), ("D", "DWORD", "DWORD#3"), ("L", "LWORD", "LWORD#4")][rng.gen_range(0..5)];
+        let addr = if sz == "X" { format!("%{area}X{byte}.{}", rng.gen_range(0..8)) } else { format!("%{area}{sz}{byte}") };
+        decls.push_str(&format!("  v{i} AT {addr} : {ty};\n"));
+        if area != "I" {
+            body.push_str(&format!("v{i} := {lit};\n"));
+        }
+    }
+    format!("PROGRAM IoShape{k}\nVAR\n{decls}  t : DINT;\nEND_VAR\nt := t + DINT#1;\n{body}END_PROGRAM\n")
 }
